@@ -169,7 +169,7 @@ func (i *interpreter) assertCond(label string, c value, fr *frame) {
 	}
 	anySat := false
 	if !(fresh.IsConst() && fresh.Val == 0) {
-		r, _ := i.solver.Check(st, fresh, false)
+		r, _ := i.solver.CheckPatient(st, fresh, false, 6)
 		ex.mu.Lock()
 		ex.res.AssertQ++
 		switch r {
